@@ -31,12 +31,14 @@ func TestVerifC05TaskRunner(t *testing.T) {
 		n := rapid.IntRange(1, 8).Draw(t, "n")
 		tasks := rapid.IntRange(1, 40).Draw(t, "tasks")
 		tr := threading.NewTaskRunner(n)
-		var cur, max, ran, refused int64
+		var cur, max, ran, refused, goexits int64
 		var bad atomic.Value
 		for i := 0; i < tasks; i++ {
 			immediate := rapid.Bool().Draw(t, "immediately")
 			spin := rapid.IntRange(0, 20).Draw(t, "spin")
-			pan := rapid.IntRange(0, 6).Draw(t, "panic") == 0
+			// how the task ends: returns, panics (string / error value), or ends its goroutine with
+			// runtime.Goexit (what t.FailNow, t.SkipNow and abort helpers do) - "finished" either way
+			end := rapid.SampledFrom([]string{"return", "return", "return", "return", "panic", "goexit", "panic-error", "return"}).Draw(t, "end")
 			task := func() {
 				c := atomic.AddInt64(&cur, 1)
 				defer atomic.AddInt64(&cur, -1)
@@ -53,8 +55,14 @@ func TestVerifC05TaskRunner(t *testing.T) {
 				for k := 0; k < spin; k++ {
 					runtime.Gosched()
 				}
-				if pan {
+				switch end {
+				case "panic":
 					panic("task panic")
+				case "panic-error":
+					panic(fmt.Errorf("task panic %d", c))
+				case "goexit":
+					atomic.AddInt64(&goexits, 1)
+					runtime.Goexit()
 				}
 			}
 			if immediate {
@@ -132,6 +140,9 @@ func TestVerifC05TaskRunner(t *testing.T) {
 		tr.Wait()
 		if max == int64(n) && refused > 0 {
 			st.NonTrivial(fmt.Sprintf("n=%d tasks=%d max=%d refused=%d", n, tasks, max, refused))
+			if atomic.LoadInt64(&goexits) > 0 {
+				st.Class("tasks-ended-by-goexit")
+			}
 		}
 	})
 }
